@@ -638,8 +638,13 @@ class VectorContainer:
             # Multiple items: Treat as a slice
             start, stop, *step = map(str.strip, slice_)
 
-            # Resolve first (`start`) and second (`stop`) arguments
-            if len(start):
+            # Resolve first (`start`) and second (`stop`) arguments: only items
+            # with a backticked period label. A plain item of a mixed slice
+            # (e.g. the `3` in X[`2001`:3]) is a position: it is left exactly
+            # as written and keeps its ordinary Python meaning
+            stop_is_label = '`' in stop
+
+            if '`' in start:
                 start = resolve_index_in_span(start)
 
                 # Handle slices (typically from a `pandas` `PeriodIndex` or
@@ -647,7 +652,7 @@ class VectorContainer:
                 if isinstance(start, slice):
                     start = start.start
 
-            if len(stop):
+            if stop_is_label:
                 stop = resolve_index_in_span(stop)
 
                 # Handle slices (typically from a `pandas` `PeriodIndex` or
@@ -656,8 +661,8 @@ class VectorContainer:
                     stop = stop.stop
 
             # Adjust for closed intervals on the right-hand side (mirroring
-            # `pandas`)
-            if isinstance(stop, int):
+            # `pandas`): period labels only
+            if stop_is_label and isinstance(stop, int):
                 stop += 1
 
             # Resolve third (`step`) argument
